@@ -7,6 +7,7 @@
     deck.clean <kw:end,kw:end|-> <hex>        clean() with the given code keywords
     deck.getline <hex>
     deck.split <recordhex> <next>             RawRecord tokens (`,`-joined) | err
+    deck.splitp <recordhex> <next>            the same through the pointer-level mirror (LexPtr)
     deck.star <hex>                           plain | bad | rep <n> <valuehex>
     deck.rdstr <hex>   deck.rdint <hex>   deck.okdbl <hex>
     deck.parse <schema> <recordhex> <next>    canonical record | err
@@ -17,6 +18,7 @@ import OpmVerif.Model.Scan
 import OpmVerif.Model.DeckWrite
 import OpmVerif.Model.RawKw
 import OpmVerif.Model.Deck
+import OpmVerif.Model.LexPtr
 -- driver: prefix=deck handler=OpmVerif.DeckIO.handle
 
 namespace OpmVerif.DeckIO
@@ -253,15 +255,46 @@ def parseFiles (s : String) : Option (List (Bytes × Bytes)) :=
       | _, _ => none
     | _ => none
 
+/-- characters of a path alias name (`validPathNameCharacters` of `getIncludeFilePath`). -/
+def isPathNameChar (b : UInt8) : Bool := isAlnum b || b == 45 || b == 95
+
+/-- replace every occurrence of `pat` (non-empty) by `rep`, left to right, not rescanning the
+replacement (`Opm::replaceAll`). -/
+def replaceAllB (pat rep : Bytes) : Nat → Bytes → Bytes
+  | 0, l => l
+  | _, [] => []
+  | fuel + 1, c :: r =>
+    if pat.isPrefixOf (c :: r) then rep ++ replaceAllB pat rep fuel ((c :: r).drop pat.length)
+    else c :: replaceAllB pat rep fuel r
+
+/-- stand-in for `ParserState::getIncludeFilePath` (driver only): `$NAME` replaced through the
+alias list of PATHS (unknown alias: `pathMap.at` throws), outer blanks trimmed. -/
+def resolvePath (al : List (Bytes × Bytes)) (path : Bytes) : Option Bytes :=
+  let p1 : Option Bytes :=
+    match path.dropWhile (· != 36) with
+    | [] => some path
+    | _ :: after =>
+      let nm := after.takeWhile isPathNameChar
+      match al.find? (fun q => q.1 == nm) with
+      | none => none
+      | some q => some (replaceAllB (36 :: nm) q.2 (path.length + 1) path)
+  match p1 with
+  | none => none
+  | some p => some ((p.dropWhile (fun b => b == 32 || (9 ≤ b.toNat && b.toNat ≤ 13))).reverse.dropWhile
+      (fun b => b == 32 || (9 ≤ b.toNat && b.toNat ≤ 13))).reverse
+
 /-- deck.deck <fuel> <kwdefs ~> <recognised names> <files> <text> -/
 def handleDeck (args : List String) : String :=
   match args with
   | [fuel, defs, names, files, text] =>
     match (defs.splitOn "~").mapM parseKwDef, parseNames names, parseFiles files, ofHex text with
     | some tbl, some recNames, some fl, some txt =>
-      let lookupFile := fun (p : Bytes) => match fl.find? (fun q => q.1 == p) with
-        | some q => some q.2
+      let lookupFile := fun (al : List (Bytes × Bytes)) (p0 : Bytes) =>
+        match resolvePath al p0 with
         | none => none
+        | some p => match fl.find? (fun q => q.1 == p) with
+          | some q => some q.2
+          | none => none
       match parseDeckText conv tbl (fun n => recNames.contains n) lookupFile fuel.toNat! txt with
       | none => "err"
       | some deck =>
@@ -310,7 +343,7 @@ def handle (op : String) (args : List String) : String :=
   | "deck.fclean", [h] => match ofHex h with
     | some b => hx (fastClean b) | none => "bad-op"
   | "deck.clean", [k, h] => match parseCodeKws k, ofHex h with
-    | some kws, some b => hx (clean kws b) | _, _ => "bad-op"
+    | some kws, some b => hx (clean OpmVerif.Gen.RawConsts.cleanRetestsCodeKeyword kws b) | _, _ => "bad-op"
   | "deck.getline", [h] => match ofHex h with
     | some b => match getline b with
       | none => "none"
@@ -320,6 +353,15 @@ def handle (op : String) (args : List String) : String :=
     | some b, some [_] => match rawRecord b with
       | none => "err"
       | some ts => if ts.isEmpty then "none" else ",".intercalate (ts.map hx)
+    | _, _ => "bad-op"
+  | "deck.splitp", [h, nx] => match ofHex h, ofHex nx with
+    -- pointer-level mirror of splitSingleRecordString (Model/LexPtr.lean): `ub` would be an
+    -- iterator outside the record
+    | some b, some [_] => match OpmVerif.LexPtr.splitRecordP b with
+      | .ub => "ub"
+      | .ok vs =>
+        if !evenQuotes b then "err"
+        else if vs.isEmpty then "none" else ",".intercalate (vs.map fun v => hx (v.bytes b))
     | _, _ => "bad-op"
   | "deck.star", [h] => match ofHex h with
     | some b => match classify b with
